@@ -104,7 +104,7 @@ def row_ok(w, T, c, k, data=None, synced=False):
     stored = d.slice(off, off + ln)
     content = EM.dec(comp, stored)
     return b_and(ino != 0, off >= 0, ln >= 0, off + ln <= limit,
-                 implies(comp, EM.zvalid(stored)),
+                 implies(comp, b_and(EM.zvalid(stored), ln > 0)),      # (E-ZLIB: a complete zlib stream is never empty)
                  EM.H(c.f['$hash'], content) == SStr.of(k), content.length() == sz,
                  implies(b_not(comp), ln == sz), T.col('pack_id', k) >= 0)
 
